@@ -542,7 +542,10 @@ class SymBool:
     def _reduced_z(self):
         """z3 term with the pinned atoms folded in (may be a python bool)"""
         if self.op is None:
-            return _CUR._reduce(self._zc)
+            z = self._zc
+            if z.num_args() == 0 or z.get_id() in _CUR.bdec:
+                return z
+            return _CUR._reduce(z)
         d = self.d._reduced()
         if not isinstance(d, SymInt):
             return _CMP[self.op](d, 0)
@@ -761,6 +764,7 @@ class Explorer:
         self.notes = {}
         self.subs = []
         self.known = {}
+        self.bdec = {}
         self.asserted = []
         self._path_nontrivial = False
         self._stack = []
@@ -826,12 +830,17 @@ class Explorer:
             return True
         if z3.is_false(z):
             return False
+        zid = z.get_id()
+        k = self.bdec.get(zid)
+        if k is not None:  # the same condition was already decided on this path
+            return k
         if self.pos < len(self.prefix):
             kind, b = self.prefix[self.pos]
             if kind != 'b':
                 raise EngineError('non-deterministic harness: expected branch decision')
             self.pos += 1
             self.decisions.append(('b', b))
+            self.bdec[zid] = b
             return b
         self._budget()
         m = self._get_model()
@@ -848,6 +857,7 @@ class Explorer:
         if self.pos > self.max_depth:
             self.max_depth = self.pos
         self._add(z if b else z3.Not(z), keeps_model=True)
+        self.bdec[zid] = b
         return b
 
     def _pin(self, z, v, aid=None, replay=False):
@@ -1058,7 +1068,7 @@ class Explorer:
                 self.prefix, self.decisions, self.pos = prefix, [], 0
                 self.model = model
                 self.asserted = asserted
-                self.inputs, self.pickled, self.notes, self.subs, self.known = {}, [], {}, [], {}
+                self.inputs, self.pickled, self.notes, self.subs, self.known, self.bdec = {}, [], {}, [], {}, {}
                 self._path_nontrivial = False
                 self.solver.push()
                 if asserted:
